@@ -189,7 +189,14 @@ func (b *Builder) EnumProgram(o EnumOpts) []EnumInfo {
 		needErr = false
 	}
 	sn, tn := "Enum"+prefS, "Enum"+prefT
-	b.A.Types = append(b.A.Types, &spec.TypeDecl{Name: sn, U: spec.Basic(ks), Consts: cs})
+	var spellings []string
+	if b.chance(25, "enum-member-via-alias") {
+		// a member declared through an alias of the enum type is a member like the others
+		spellings = []string{sn + "Alias"}
+		cs[b.draw(len(cs), "enum-alias-member")].Via = sn + "Alias"
+		b.label("enum:member-declared-via-alias")
+	}
+	b.A.Types = append(b.A.Types, &spec.TypeDecl{Name: sn, U: spec.Basic(ks), Consts: cs, Spellings: spellings})
 	b.B.Types = append(b.B.Types, &spec.TypeDecl{Name: tn, U: spec.Basic(kt), Consts: ct})
 	s, t := spec.Named(b.A.Key, sn), spec.Named(b.B.Key, tn)
 	m.Source, m.Target = s, t
